@@ -209,14 +209,22 @@ class C15(E2EProp):
         sp = [".", "'", "\\e", "\"", "…"]
         for a in gen.all_strings(sp, T(tier, 2, 3), 1):
             for tmpl in ["%s x", ".Sm %s", ".Ch %s", ".It %s", ".P %s", ".Lk http://a %s", ".Bl -t table %s", ".Bl -t verse\n.It %s\n.El", "a\n%s b"]:
-                if '"' in a and tmpl.startswith("."):
-                    a2 = a.replace('"', '""')
-                    pos.append(e2e.case_of("m0", (tmpl % ('"' + a2 + '"')) + "\n"))
-                else:
-                    pos.append(e2e.case_of("m0", (tmpl % a) + "\n"))
+                # with the default language (apostrophes are curled before the escaper sees them) and with a language
+                # that has no automatic typography (they reach it straight)
+                for lang in ("", ".X set lang de\n"):
+                    if '"' in a and tmpl.startswith("."):
+                        a2 = a.replace('"', '""')
+                        pos.append(e2e.case_of("m0", lang + (tmpl % ('"' + a2 + '"')) + "\n"))
+                    else:
+                        pos.append(e2e.case_of("m0", lang + (tmpl % a) + "\n"))
+        # a straight apostrophe or a dot first on a line of a chunk that has no other significant character
+        for first in ["'", "\\&'", ".", "\\&."]:
+            for lang in ("", ".X set lang de\n"):
+                for tmpl in ["Plain line\n%stis the season", "%stis", ".Bl -t verse\n.It %stis\n.El", ".Bl\n.It %stis\n.El", ".Sh %stis", ".Bd\n%stis\n.Ed", ".Bm\n%stis\n.Em", ".D\n%stis"]:
+                    pos.append(e2e.case_of("m0", lang + (tmpl % first) + "\n"))
         pos += [e2e.case_of("m0", d) for d in position_docs([".", "'", "\\e", "\"", "%", ":"], T(tier, 2, 3), [".Lk %s", ".Lk %s l", ".Sx %s", ".Sm -id %s w", ".Ch -id %s T", ".Im %s", ".Im %s cap", "%s"])]
         return [("S-e2e-mom", fam_cases("m0", ALLFAM, T(tier, 3, 4), rng, 2, T(tier, 1500, 20000)) + pos,
-                 "mom fragments: family sequences, skeletons, random; roff-significant strings <= %d in 9 text-bearing positions" % T(tier, 2, 3))]
+                 "mom fragments: family sequences, skeletons, random; roff-significant strings <= %d in 9 text-bearing positions, with and without automatic typography; chunks whose only significant character is a leading apostrophe or dot" % T(tier, 2, 3))]
 
     def streams(self, tier, rng):
         return [esc_stream("roff", tier, rng, ".'\\\"\xa0…")] + super().streams(tier, rng)
